@@ -218,20 +218,17 @@ class Parser:
         stream.expect(TokenType.COLON)
         stream.next_token()
 
-        # 1 or 1: or : or ?
+        # 1 or ?
         if _maybe_index(stream.current):
             stop = int(stream.current.value)
             stream.next_token()
-            if stream.current.type_ == TokenType.COLON:
-                stream.next_token()
-        elif stream.current.type_ == TokenType.COLON:
-            stream.expect(TokenType.COLON)
-            stream.next_token()
 
-        # 1 or ?
-        if _maybe_index(stream.current):
-            step = int(stream.current.value)
+        # :1 or : or ?
+        if stream.current.type_ == TokenType.COLON:
             stream.next_token()
+            if _maybe_index(stream.current):
+                step = int(stream.current.value)
+                stream.next_token()
 
         stream.push(stream.current)
 
